@@ -5,7 +5,7 @@ test, module, runs = sys.argv[1], sys.argv[2], sys.argv[3]
 cfg = sys.argv[4] if len(sys.argv)>4 else None
 ctx=vlib.Ctx("T","quick",int(os.environ.get("VERIF_SEED","1")))
 t=time.time()
-rows,fails,agg=vlib.rows_check(ctx,"internal/app","^%s$"%test,module,env={"VERIF_RUNS":runs},timeout=1500,shards=16, chunk=1500, par=8, cfg=cfg)
+rows,fails,agg=vlib.rows_check(ctx,"internal/app","^%s$"%test,module,env=dict({"VERIF_RUNS":runs}, **{k:v for k,v in os.environ.items() if k.startswith("VERIF_") and k not in ("VERIF_SEED",)}),timeout=1500,shards=16, chunk=1500, par=8, cfg=cfg)
 print(len(rows), agg.distinct, round(time.time()-t,1))
 print('crashes', [(c['scenario']['id'], c['panic'][:80], c['frames'][:2]) for c in getattr(ctx,'crashes',[])])
 meta=cluster.load_meta(ctx); print('runs',meta['runs'], 'stragglers', sum(m.get('stragglers',0) for m in meta['summaries']))
